@@ -622,7 +622,7 @@ def taskProgram (P : Proj) (svs : List SuiteView) (w : Nat) (t : TaskId) (run : 
             match ← lookupAll P svs w (.test t.path) suite ts.fixtures with
             | some _ => crashed := true
             | none =>
-              sop 0 (.setStep "")         -- set_step(test.description); descriptions are blank in the model
+              sop 0 (.setStep ("test " ++ ts.name))   -- set_step(test.description); the harness names it "test <name>"
               match ← runUnit (.body t.path) ts.script with
               | some e => handleException e (some suite) true
               | none => pure ()
